@@ -25,7 +25,7 @@ TREE_CLS = {"plain": ("Tree", "FileSystemTree"), "typed": ("TypedTree",)}
 
 
 class Executor(ExprMixin, ContainerMixin, CallMixin, StmtMixin, ObjectMixin):
-    max_paths = 400
+    max_paths = 3000
 
     def __init__(self, src: Source, qual: str, contract: Contract, family: str):
         self.src = src
@@ -195,6 +195,8 @@ class Executor(ExprMixin, ContainerMixin, CallMixin, StmtMixin, ObjectMixin):
             p.assume(lemma_statement(self, lq, h0, x0.T))
         if self.contract.is_generator:
             p.ghost["yielded"] = L.Empty
+        self.entry_conds = list(p.conds)
+        self._nt_cache = {}
         self.on_entry(p)
         # vacuity guard: the precondition must not be contradictory (checked as a must-fail VC)
         self.obligations.append(Obligation(f"{self.qual}[{self.variant}]#entry/must-fail:False", list(p.conds), z3.BoolVal(False), (), self.qual, "must_fail"))
